@@ -147,6 +147,26 @@ LawScale(b, s, AX)     == (~IsEmpty(b) /\ \A i \in Ax(b) : s[i] >= 0) => IsTight
 \* xfmBounds: the hull of the corner images contains the image of every lattice point of the box (convexity)
 LawXfm(m, b, AX)       == ~IsEmpty(b) => LET h == Hull(XfmImages(m, CornerPts(b)), 3) IN \A q \in XfmImages(m, Pts(b, AX)) : ContainsPt(h, q)
 
+\* Order isomorphism: contains / extend / clamp / intersectionOf / disjoint / touchingOrOverlapping / empty only COMPARE
+\* coordinates, so they commute with every strictly increasing map F of the coordinates (the sentinel +-INF is fixed).
+\* This is what lets the drivers re-use the lattice expectations for boxes whose coordinates are F(k): the
+\* neighbourhood of the element type's limits (2^31, 2^24, 2^15, the sign bit of unsigned types, multiples of 2^32),
+\* non-dyadic, subnormal and huge floating-point values.
+MapV(F(_), x)     == IF x = INF THEN INF ELSE IF x = -INF THEN -INF ELSE F(x)
+MapPt(F(_), p)    == [i \in 1..Len(p) |-> MapV(F, p[i])]
+MapBox(F(_), b)   == [lo |-> MapPt(F, b.lo), hi |-> MapPt(F, b.hi)]
+StrictlyIncreasing(F(_), S) == \A x, y \in S : x < y => (F(x) < F(y) /\ -INF < F(x) /\ F(y) < INF)
+LawMonotonePt(F(_), b, p) ==
+  /\ ContainsPt(MapBox(F, b), MapPt(F, p)) = ContainsPt(b, p)
+  /\ IsEmpty(MapBox(F, b)) = IsEmpty(b)
+  /\ ExtendPt(MapBox(F, b), MapPt(F, p)) = MapBox(F, ExtendPt(b, p))
+  /\ Clamp(MapBox(F, b), MapPt(F, p)) = MapPt(F, Clamp(b, p))
+LawMonotonePair(F(_), a, b) ==
+  /\ ExtendBox(MapBox(F, a), MapBox(F, b)) = MapBox(F, ExtendBox(a, b))
+  /\ Intersection(MapBox(F, a), MapBox(F, b)) = MapBox(F, Intersection(a, b))
+  /\ Disjoint(MapBox(F, a), MapBox(F, b)) = Disjoint(a, b)
+  /\ Touching(MapBox(F, a), MapBox(F, b)) = Touching(a, b)
+
 \* ---------------------------------------------------------------------------
 \* rays: p(t) = org + t * dir, t = n / PD, restricted to [tlo2/2, thi2/2]
 \* (thi2 = INF: unbounded).  A ray case is a record
@@ -208,7 +228,20 @@ SAT == 16777216
 RayAccept(c, T0, T1, K) ==
   /\ \A n \in Probes(c, K) : Decided(c, n) => ((T0 <= n /\ n <= T1) <=> Hit(c, n))
   /\ ClearMiss(c) => T0 > T1
-RayClass(c) == IF ~SlabOK(c) THEN "miss-parallel"
+\* Boxes without points (the default-constructed empty box, boxes inverted in at least one axis): no parameter's point
+\* lies in the box (LawEmpty: IsEmpty(b) <=> Pts(b) = {}), so for EVERY ray and every admitted range the returned interval
+\* must be empty.  Emptiness of the returned range_t is what range_t::empty() decides: anyLessThan(upper, lower), i.e.
+\* upper < lower for the scalar parameter type (false when an end is NaN).  The driver records that verdict of the real
+\* range_t as the flag `empty`; the bounds themselves are not constrained.
+RayBox(c)          == [lo |-> c.lo, hi |-> c.hi]
+RayBoxIsEmpty(c)   == IsEmpty(RayBox(c))
+RayAcceptEmptyBox(emptyFlag) == emptyFlag = TRUE
+\* for finite (inverted) bounds: no probe parameter's point is inside the box
+LawRayEmptyBox(c, K) == (RayBoxIsEmpty(c) /\ ~IsCanonicalEmpty(RayBox(c))) => \A n \in CoarseProbes(K) : ~InBoxAt(c, n)
+RayEmptyClass(c)   == IF IsCanonicalEmpty(RayBox(c)) THEN "empty-box-default" ELSE "empty-box-inverted"
+
+RayClass(c) == IF RayBoxIsEmpty(c) THEN RayEmptyClass(c)
+               ELSE IF ~SlabOK(c) THEN "miss-parallel"
                ELSE IF ClearMiss(c) THEN "miss"
                ELSE IF Grazes(c) THEN "graze"
                ELSE IF \E i \in RayAx(c) : c.dir[i] = 0 THEN "hit-parallel"
